@@ -1307,7 +1307,7 @@ impl Check for C06 {
     }
     fn total_cases(&self, tier: Tier) -> u64 {
         match tier {
-            Tier::Quick => 24000,
+            Tier::Quick => 60000,
             Tier::Thorough => 2_000_000,
         }
     }
